@@ -506,11 +506,113 @@ def check_acc_init(model, rep, fn, loop, acc, rel, rule="R5"):
 
 
 # ------------------------------------------------------------------------------------------------ solve() row body
+def sink_map_columns(model, fn, is_row):
+    """a column computed after the row loop as one value per row,
+           COL = [E(x) for x in <the row loop's iterable>]      or      COL = [E(x) for x in L]  with one `L += [V]` per row,
+    is the same column as `COL += [E(n)]` / `COL += [E(V)]` emitted inside the loop: rewritten so (on a copy, cached), names
+    bound once to a loop-invariant attribute / subscript chain between the loop and the column are read through"""
+    key = "_sunk_" + fn.name
+    if key in model.__dict__:
+        return model.__dict__[key]
+    from .core import clone_ast
+    hits = [n for n in ast.walk(fn) if isinstance(n, ast.For) and is_row(n)]
+    inner = {id(y) for h in hits for y in ast.walk(h) if y is not h}
+    hits = [h for h in hits if id(h) not in inner]
+    out = fn
+    if len(hits) == 1:
+        new = clone_ast(fn)
+        row = [n for n in ast.walk(new) if isinstance(n, ast.For) and ast.dump(n) == ast.dump(hits[0])]
+        row = row[0] if len(row) == 1 else None
+        blk = None
+        if row is not None:
+            for n in ast.walk(new):
+                for fld in ("body", "orelse", "finalbody"):
+                    b = getattr(n, fld, None)
+                    if isinstance(b, list) and any(x is row for x in b):
+                        blk = b
+        changed = False
+        if blk is not None:
+            k = [i for i, x in enumerate(blk) if x is row][0]
+            stores = {}
+            for x in ast.walk(new):
+                if isinstance(x, ast.Name) and isinstance(x.ctx, ast.Store):
+                    stores[x.id] = stores.get(x.id, 0) + 1
+
+            def chain(e):
+                while isinstance(e, (ast.Attribute, ast.Subscript)):
+                    if isinstance(e, ast.Subscript) and not isinstance(e.slice, ast.Constant):
+                        return False
+                    e = e.value
+                return isinstance(e, ast.Name) and e.id == "self"
+            alias = {}
+            j = k + 1
+            while j < len(blk):
+                st = blk[j]
+                if isinstance(st, ast.Pass):
+                    j += 1
+                    continue
+                if isinstance(st, ast.Assign) and len(st.targets) == 1 and isinstance(st.targets[0], ast.Name) and stores.get(st.targets[0].id) == 1 and chain(st.value):
+                    alias[st.targets[0].id] = st.value
+                    j += 1
+                    continue
+                if not (isinstance(st, ast.Assign) and len(st.targets) == 1 and isinstance(st.targets[0], ast.Name) and isinstance(st.value, ast.ListComp)
+                        and len(st.value.generators) == 1 and not st.value.generators[0].ifs and isinstance(st.value.generators[0].target, ast.Name)
+                        and not any(isinstance(y, ast.Name) and y.id == st.targets[0].id for y in ast.walk(row))):
+                    break
+                col, g = st.targets[0].id, st.value.generators[0]
+                x = g.target.id
+                repl, at = None, None
+                if ast.dump(g.iter) == ast.dump(row.iter) and isinstance(row.target, ast.Name):
+                    repl, at = ast.Name(id=row.target.id, ctx=ast.Load()), len(row.body)
+                elif isinstance(g.iter, ast.Name):
+                    L = g.iter.id
+                    emits = [(i, e) for i, e in enumerate(row.body) for e in [_emitted(e, L)] if e is not None]
+                    nested = sum(1 for y in ast.walk(row) if _emitted(y, L) is not None)
+                    if len(emits) == 1 and nested == 1:
+                        repl, at = emits[0][1], emits[0][0] + 1
+                if repl is None:
+                    break
+
+                class Sub(ast.NodeTransformer):
+                    def visit_Name(self, n):
+                        if isinstance(n.ctx, ast.Load) and n.id == x:
+                            return clone_ast(repl)
+                        if isinstance(n.ctx, ast.Load) and n.id in alias:
+                            return clone_ast(alias[n.id])
+                        return n
+                elt = Sub().visit(clone_ast(st.value.elt))
+                row.body.insert(at, ast.copy_location(ast.AugAssign(target=ast.Name(id=col, ctx=ast.Store()), op=ast.Add(), value=ast.List(elts=[elt], ctx=ast.Load())), st))
+                blk[j] = ast.copy_location(ast.Pass(), st)
+                blk.insert(k, ast.copy_location(ast.Assign(targets=[ast.Name(id=col, ctx=ast.Store())], value=ast.List(elts=[], ctx=ast.Load())), row))
+                k += 1
+                j += 2
+                changed = True
+        if changed:
+            ast.fix_missing_locations(new)
+            for node in ast.walk(new):
+                for ch in ast.iter_child_nodes(node):
+                    ch._parent = node
+            out = new
+    model.__dict__[key] = out
+    return out
+
+
+def _emitted(stmt, L):
+    """L += [V] / L.append(V) -> V"""
+    if isinstance(stmt, ast.AugAssign) and isinstance(stmt.op, ast.Add) and is_name(stmt.target, L) and isinstance(stmt.value, ast.List) and len(stmt.value.elts) == 1:
+        return stmt.value.elts[0]
+    if isinstance(stmt, ast.Expr) and isinstance(stmt.value, ast.Call) and isinstance(stmt.value.func, ast.Attribute) and stmt.value.func.attr == "append" \
+            and is_name(stmt.value.func.value, L) and len(stmt.value.args) == 1:
+        return stmt.value.args[0]
+    return None
+
+
 def solve_anchors(model, r):
     """ROW LOOP / PHASE LOOP / V,I,STATE / channel map of System.solve"""
     fn = model.own_method("System", "solve")
     if fn is None:
         raise AnalysisError("System.solve not found")
+    fn = sink_map_columns(model, fn, lambda l: isinstance(l, ast.For) and iter_is_role(l, r["TOPO"]))
     row = find_loop(fn, lambda l: isinstance(l, ast.For) and iter_is_role(l, r["TOPO"]), "row loop")
     chain = enclosing_chain(fn, row)
     phase_loop = None
